@@ -720,7 +720,7 @@ class Gen:
                                 queued.append((qt, qc, None))
                         else:
                             queued.append((qt, qc, ident(qc)))
-            what = r.choice(["ok", "ok", "ok", "fail", "close", "disconnect", "brk"] if len(queued) > 1 else ["ok", "ok", "fail", "close", "disconnect", "brk"])
+            what = r.choice(["ok", "ok", "ok", "fail", "close", "disconnect", "brk"] if len(queued) > 1 else ["ok", "ok", "fail", "close", "disconnect", "brk", "disconnect quit"])
             if len(queued) > 1 and what in ("fail", "brk"):
                 # the queued requests would poll for the reconnect in an order the model does not fix
                 for qt, qc, _ in queued[2:]:
@@ -747,6 +747,9 @@ class Gen:
                 self.emit("brk")
                 self.link, self.parked, self.reader_out, self.doomed = "pending", False, False, False
                 self.subs, self.unsubs, self.ping = [], [], None
+            elif what == "disconnect quit":
+                self.emit("disconnect quit", "rs")
+                self.closed, self.link = True, "closed"
             else:
                 self.emit(what)
                 if what == "disconnect":
